@@ -18,6 +18,8 @@ from supp.util import Source, get_name_usages, np
 from supp.nast import extract_scope
 from supp.name import MultiName, UndefinedName, RuntimeName
 
+# bindings made through a global / nonlocal statement: the known findings F-glob / F-nonlocal are keyed by the binding kind alone
+NONLOCAL_KINDS = ('global-assign', 'nonlocal-assign')
 PROJECT_DIR = os.path.join(os.path.dirname(os.path.abspath(__file__)), 'genproject')
 FILE = os.path.join(PROJECT_DIR, 'x.py')
 _project = None
@@ -127,6 +129,12 @@ def check_program(prog, want=('C01', 'C02', 'C03'), part=None):
         lenient = ps.ground_truth(ps.render(prog, 'lenient').text, 'lenient')
         part.count('executions', lenient.nexec)
         part.count('exec_tree_nodes', lenient.nodes)
+        if lenient.errors:
+            # some execution ended in a run-time error: 'on no path' cannot be decided for this program
+            part.count('c03_programs_skipped_runtime_error')
+            lenient = None
+            need_lenient = False
+            d03 = False
     if not (need_strict or need_lenient):
         return out
 
@@ -192,7 +200,7 @@ def check_program(prog, want=('C01', 'C02', 'C03'), part=None):
                 for d in same:
                     ds = rp.defs[d]
                     if ds.pos not in apos:
-                        out.append(('C02', 'missing-alt:def=%s:read=%s' % (ds.ckind, rs.rclass),
+                        out.append(('C02', 'missing-alt:def=%s' % ds.ckind if ds.ckind in NONLOCAL_KINDS else 'missing-alt:def=%s:read=%s' % (ds.ckind, rs.rclass),
                                     'read `%s` at %s obtains the binding at %s (%s) in some execution, supp alternatives: %s' % (
                                         rs.var, rs.pos, ds.pos, ds.ckind, sorted(map(str, al)) if isinstance(al, set) else al),
                                     ctx({'read': r, 'def': d})))
@@ -208,7 +216,7 @@ def check_program(prog, want=('C01', 'C02', 'C03'), part=None):
                             part.count('location_crashes')
                             G = 'crash'
                     if G != 'crash' and ds.pos not in G:
-                        out.append(('C02', 'goto-missing:def=%s:read=%s' % (ds.ckind, rs.rclass),
+                        out.append(('C02', 'goto-missing:def=%s' % ds.ckind if ds.ckind in NONLOCAL_KINDS else 'goto-missing:def=%s:read=%s' % (ds.ckind, rs.rclass),
                                     'location() from `%s` at %s lists %s, not the binding at %s that an execution reads' % (
                                         rs.var, rs.pos, sorted(G), ds.pos),
                                     ctx({'read': r, 'def': d})))
